@@ -1,6 +1,7 @@
 import Skc.Gen.Loops
 import Skc.Model.Pelt
 import Skc.Lemmas.PeltSpec
+import Skc.Props.C02
 import Mathlib.Data.List.Basic
 import Mathlib.Tactic.Ring
 
@@ -90,6 +91,20 @@ theorem peltCode_backtracking_is_generated (cost : Nat → Nat → α) (pen : α
       = some (runPeltCode cost pen m n).2 :=
   pelt_backtracking_is_generated argminL prStrict soundPick_argminL soundPrune_strict cost pen m (m - 1) n hm
     (by omega) hn hsplit
+
+/-- **C02 on the regenerated back-tracking**: the segmentation that `get_changepoints`, as read off the current source,
+    returns on the back-pointers of the recursion is admissible, its penalised cost is the final score, and no
+    admissible segmentation costs less -/
+theorem pelt_generated_backtracking_optimal (pick : (Nat → α) → List Nat → Nat) (pr : α → α → Bool)
+    (hpick : SoundPick pick) (hpr : SoundPrune pr)
+    (cost : Nat → Nat → α) (pen : α) (m delay n : Nat)
+    (hm : 1 ≤ m) (hd : m ≤ delay + 1) (hn : 2 * m ≤ n) (hsplit : SplitIneq cost m n) :
+    ∃ cps, pelt_changepoints (peltIter pick pr cost pen m delay (n + 1 - 2 * m)).prev n = some cps ∧
+      ValidFrom m 0 cps n ∧
+      segCost cost pen 0 cps n = (runPelt pick pr cost pen m delay n).1 n ∧
+      ∀ cps', ValidFrom m 0 cps' n → (runPelt pick pr cost pen m delay n).1 n ≤ segCost cost pen 0 cps' n := by
+  obtain ⟨h1, h2, h3⟩ := pelt_optimal pick pr hpick hpr cost pen m delay n hm hd hn hsplit
+  exact ⟨_, pelt_backtracking_is_generated pick pr hpick hpr cost pen m delay n hm hd hn hsplit, h1, h2, h3⟩
 
 end composed
 
